@@ -13,8 +13,6 @@ use crate::range_map::{Range, RangeMap};
 use crate::right_ctx::{RightCtxDFAs, RightCtxIdx};
 use crate::semantic_action_table::{SemanticActionIdx, SemanticActionTable};
 
-use std::convert::TryFrom;
-
 use proc_macro2::{Span, TokenStream};
 use quote::{quote, ToTokens};
 use syn::fold::Fold;
@@ -606,16 +604,18 @@ fn generate_state_char_arms(
     let mut state_ranges: Map<StateIdx, Vec<(char, char)>> = Default::default();
 
     for range in range_transitions.iter() {
+        let (range_start, range_end) = match range_chars(range.start, range.end) {
+            Some(chars) => chars,
+            None => continue,
+        };
+
         match &range.value {
-            Trans::Trans(state_idx) => state_ranges.entry(*state_idx).or_default().push((
-                char::try_from(range.start).unwrap(),
-                char::try_from(range.end).unwrap(),
-            )),
+            Trans::Trans(state_idx) => state_ranges
+                .entry(*state_idx)
+                .or_default()
+                .push((range_start, range_end)),
             Trans::Accept(accepting) => {
                 let action_code = test_right_ctxs(ctx, accepting, default_rhs.clone());
-
-                let range_start = char::from_u32(range.start).unwrap();
-                let range_end = char::from_u32(range.end).unwrap();
 
                 let range_check = inclusive_range_contains(quote!(x), range_start, range_end);
                 state_char_arms.push(quote!(
@@ -915,8 +915,10 @@ fn generate_right_ctx_state_char_arms(
         value: next,
     } in range_transitions.iter()
     {
-        let start = char::try_from(*start).unwrap();
-        let end = char::try_from(*end).unwrap();
+        let (start, end) = match range_chars(*start, *end) {
+            Some(chars) => chars,
+            None => continue,
+        };
 
         if states[next.0].accepting.is_empty() {
             state_ranges.entry(*next).or_default().push((start, end));
@@ -998,6 +1000,32 @@ fn test_right_ctxs(
     }
 
     action_code
+}
+
+/// Converts a range of code points in a range map to a range of `char`s.
+///
+/// Ranges in range maps can start or end at a surrogate code point (`0xD800..=0xDFFF`), for example
+/// when a range that spans the surrogates is split, or when the character next to the surrogates
+/// is removed from a range with `#`. Surrogates are not `char`s, so the range is shrunk to the
+/// `char`s in it. Returns `None` when the range has no `char`s.
+fn range_chars(start: u32, end: u32) -> Option<(char, char)> {
+    let start = if (0xD800..=0xDFFF).contains(&start) {
+        0xE000
+    } else {
+        start
+    };
+
+    let end = if (0xD800..=0xDFFF).contains(&end) {
+        0xD7FF
+    } else {
+        end
+    };
+
+    if start > end {
+        return None;
+    }
+
+    Some((char::from_u32(start)?, char::from_u32(end)?))
 }
 
 fn inclusive_range_contains(value: TokenStream, range_start: char, range_end: char) -> TokenStream {
